@@ -77,7 +77,8 @@ def make_jobs(Job, tier, seed, prop):
     J('n3-not', [S, {'op': 'not', 'a': 0}], 3)
     # (c) histories on one store: warm memo tables, operands chosen among all issued handles
     if tier == 'quick':
-        seqs = [[rng.choice(ALL_OPS), rng.choice(ALL_OPS)] for _ in range(4)] + [['and', 'imp'], ['restrict', 'restrict']]
+        # every operation followed by a negation of a chosen handle (cheap: unary second step), plus seeded and fixed pairs
+        seqs = [[rng.choice(ALL_OPS), rng.choice(ALL_OPS)] for _ in range(4)] + [['and', 'imp'], ['restrict', 'restrict']] + [[o, 'not'] for o in ALL_OPS if o != 'not']
         for i, sq in enumerate(seqs):
             J('n2-history-%s' % '-'.join(sq), hist(sq), 2)
         J('n2-history-reimport', [S, S, {'op': ['and', 'xor', 'restrict'], 'a': 0, 'b': 1}, {'op': 'reimport'}, {'op': ['or', 'iff'], 'a': 0, 'b': 1}], 2)
